@@ -2,11 +2,13 @@
    [BranchFacts.ctx_of]) load, and C02 (`commit`) as a TOTAL statement.
 
    [ctx_of w = Some c] is a hypothesis of most history-level theorems and is
-   NOT an invariant of histories: a `config` call with a newline in its value
-   (or key, or an empty section name) makes the next process reject the file,
-   and a .goitignore line outside the alphabet of Ignore.v is outside the
-   model.  On a reachable world (no collision, no giant object) these are the
-   ONLY ways:
+   NOT an invariant of histories: a .goitignore line outside the alphabet of
+   Ignore.v is outside the model.  On a reachable world (no collision, no
+   giant object) this is the ONLY way.  (Before the repair of `config` there
+   was a second one: a call with a newline in its value or key, or an empty
+   section name, wrote a file the next process rejected.  Such a call is now
+   refused, ConfigCmdFacts.hostile_config_refused, and both configuration
+   files of every reachable world load: [reachable_cfgs_load].)
 
    1. [ctx_of_iff] [connected_head_commit] [reachable_ctx_loads]
       [reachable_ctx_loads_iff]          the context loads iff the two
@@ -16,12 +18,21 @@
                                          files loadable: a non-empty section
                                          and no newline ([loadable_action],
                                          weaker than ConfigCmdFacts.ok_action)
-      [history_ctx_loads] ...            the two configuration conditions
-                                         discharged from the history
-      [cx_newline_*] [cx_ignore_*]       the converse, by computation: reachable
-                                         worlds whose context does not load
+      [every_action_loadable_or_refused] [cmd_config_loads] [run_cmd_emits_cfgs]
+      [reachable_cfgs_load] [cfgs_load_fault]
+                                         ... which is exactly what `config`
+                                         accepts: the two files load on EVERY
+                                         reachable world, and after a failed write
+      [reachable_ctx_loads''] [history_ctx_loads'] [reachable_ctx_loads_iff']
+                                         the context loads iff .goitignore does
+      [history_ctx_loads] ...            (the statements with the hypothesis
+                                         [Forall loadable_action h], kept)
+      [cx_newline_refused] [broken_config_unreachable] [cx_ignore_*]
+                                         by computation: the hostile `config`
+                                         calls are refused; a reachable world
+                                         whose context does not load (.goitignore)
    2. [commit_total] [commit_total_live] [commit_total_gate]
-                                         HeadFacts.commit_step_spec' with its
+      [history_commit_total']            HeadFacts.commit_step_spec' with its
                                          remaining hypotheses derived
    3. non-vacuity by computation *)
 From Coq Require Import Strings.String Strings.Byte.
@@ -470,17 +481,29 @@ Proof.
     apply cfg_add_renderable; try assumption. apply wf_renderable. exact Hwf.
 Qed.
 
-Lemma cmd_config_loadable : forall x g args w,
-  ctx_of w = Some x -> loadable_config_args args ->
+(* the guard of `config` (Repo.config_args_ok) is exactly [loadable_config_args] *)
+Lemma loadable_config_args_iff : forall key value sec k,
+  split_all x2e key = [sec; k] ->
+  (config_args_ok sec key value = true <-> loadable_config_args [key; value]).
+Proof.
+  intros key value sec k Hsp. cbn [loadable_config_args]. rewrite Hsp.
+  exact (ConfigCmdFacts.config_args_ok_iff key value sec k Hsp).
+Qed.
+
+(* whatever its arguments, `config` keeps both files loadable: what passes
+   its guard renders to a file that loads *)
+Lemma cmd_config_loads : forall x g args w,
+  ctx_of w = Some x ->
   hoare ConfigCmdFacts.CfgGood ConfigCmdFacts.good_G (eq w) (cmd_config x g args) (fun _ _ => True).
 Proof.
-  intros x g args w Hx Hok. apply at_Inv. intro Hi0.
+  intros x g args w Hx. apply at_Inv. intro Hi0.
   destruct (ConfigCmdFacts.CfgGood_ctx w x Hi0 Hx) as [Hwl Hwg].
   unfold cmd_config.
   destruct args as [|key [|value [|a3 ar]]]; try apply hoare_fail.
-  cbn [loadable_config_args] in Hok.
-  destruct (split_all x2e key) as [|sec [|k [|s3 sr]]]; try apply hoare_fail.
-  destruct Hok as (Hne & Hs & Hk & Hv).
+  destruct (split_all x2e key) as [|sec [|k [|s3 sr]]] eqn:Esp; try apply hoare_fail.
+  apply at_bind_guard. intro Hgd.
+  apply (ConfigCmdFacts.config_args_ok_iff key value sec k Esp) in Hgd.
+  destruct Hgd as (Hne & Hs & Hk & Hv).
   destruct (cfg_written_loadable (x_l x) sec k value Hwl Hne Hs Hk Hv) as (cl & El & Hcl).
   destruct (cfg_written_loadable (x_g x) sec k value Hwg Hne Hs Hk Hv) as (cg & Eg & Hcg).
   rewrite El, Eg.
@@ -489,6 +512,11 @@ Proof.
                  [first [assumption | exact ConfigCmdFacts.wf_cfg_nil] | assumption]
              | apply ConfigCmdFacts.CfgGood_set_l; assumption ].
 Qed.
+
+Lemma cmd_config_loadable : forall x g args w,
+  ctx_of w = Some x -> loadable_config_args args ->
+  hoare ConfigCmdFacts.CfgGood ConfigCmdFacts.good_G (eq w) (cmd_config x g args) (fun _ _ => True).
+Proof. intros x g args w Hx _. apply cmd_config_loads. exact Hx. Qed.
 
 Theorem run_cmd_emits_loadable : forall e c,
   loadable_cmd c -> emits ConfigCmdFacts.CfgGood ConfigCmdFacts.good_G (run_cmd e c).
@@ -528,7 +556,135 @@ Proof.
 Qed.
 
 (* ------------------------------------------------------------------ *)
-(** ** the two configuration conditions, from the history *)
+(** ** no condition on the history is needed (after the repair of `config`) *)
+
+(* `config` now refuses what [loadable_action] excludes: every action either
+   keeps the files loadable or is refused, the world unchanged *)
+Theorem every_action_loadable_or_refused : forall a w,
+  loadable_action a \/ step a w = (w, OErr, []).
+Proof.
+  intros [e c|u] w; [|left; exact Logic.I].
+  destruct c; try (left; exact Logic.I). cbn [loadable_action loadable_cmd].
+  destruct args as [|key [|value [|a3 ar]]]; try (left; exact Logic.I).
+  destruct (split_all x2e key) as [|sec [|k [|s3 sr]]] eqn:Esp;
+    try (left; cbn [loadable_config_args]; rewrite Esp; exact Logic.I).
+  destruct (config_args_ok sec key value) eqn:Eok.
+  - left. apply (loadable_config_args_iff key value sec k Esp). exact Eok.
+  - right. apply ConfigCmdFacts.hostile_config_refused. intros sec0 k0 Hsp0.
+    rewrite Esp in Hsp0. injection Hsp0 as <- <-. exact Eok.
+Qed.
+
+Theorem run_cmd_emits_cfgs : forall e c,
+  emits ConfigCmdFacts.CfgGood ConfigCmdFacts.good_G (run_cmd e c).
+Proof.
+  intros e c. apply ConfigCmdFacts.run_cmd_emits_cfg;
+    [exact ConfigCmdFacts.CfgGood_static | intros _; exact ConfigCmdFacts.CfgGood_init |].
+  intros g args Hc x w _ Hx. apply cmd_config_loads. exact Hx.
+Qed.
+
+Theorem cfgs_load_step : forall a w, ConfigCmdFacts.CfgGood w -> ConfigCmdFacts.CfgGood (step_w a w).
+Proof.
+  intros a w Hi. destruct (every_action_loadable_or_refused a w) as [Hl|Hr].
+  - apply loadable_step; assumption.
+  - unfold step_w. rewrite Hr. exact Hi.
+Qed.
+
+(* every history satisfies the hypothesis of [loadable_run], up to refused calls *)
+Theorem cfgs_load_run_from : forall h w, ConfigCmdFacts.CfgGood w -> ConfigCmdFacts.CfgGood (run h w).
+Proof.
+  intro h. induction h as [|a h IH]; intros w Hi; [exact Hi|].
+  rewrite run_cons. apply IH. apply cfgs_load_step. exact Hi.
+Qed.
+
+Theorem cfgs_load_run : forall h, ConfigCmdFacts.CfgGood (run h w_empty).
+Proof. intro h. apply cfgs_load_run_from. exact ConfigCmdFacts.CfgGood_empty. Qed.
+
+(* MAIN: on every reachable repository both configuration files load, as
+   well-formed configurations *)
+Theorem reachable_cfgs_load : forall w, Reachable w -> ConfigCmdFacts.CfgGood w.
+Proof. intros w (h & _ & ->). apply cfgs_load_run. Qed.
+
+(* the same in a world a command stops in when a write fails: a failed write
+   leaves the old file (a write is all-or-nothing per file) *)
+Theorem cfgs_load_fault : forall e c w k r s',
+  ConfigCmdFacts.CfgGood w -> run_cmd e c (mkMS w [] (Some k)) = (r, s') ->
+  ConfigCmdFacts.CfgGood (ms_w s').
+Proof.
+  intros e c w k r s' Hi Hrun.
+  exact (proj1 (emits_sound_fault ConfigCmdFacts.CfgGood ConfigCmdFacts.good_G _ _ w k r s'
+                  (run_cmd_emits_cfgs e c) Hi Hrun)).
+Qed.
+
+Corollary reachable_cfgs_load_neq : forall w,
+  Reachable w -> cfg_of (w_lcfg w) <> None /\ cfg_of (w_gcfg w) <> None.
+Proof.
+  intros w Hr. destruct (reachable_cfgs_load w Hr) as (l & g & Hl & Hg & _).
+  rewrite Hl, Hg. split; discriminate.
+Qed.
+
+(* MAIN (1) with the two configuration conditions gone: one condition on a
+   file is left, and it is the user's own file *)
+Theorem reachable_ctx_loads'' : forall w,
+  Reachable w -> ~ ConnectedFacts.Bad w ->
+  ign_load (am_get (w_files w) (str ".goitignore"%string)) <> None ->
+  exists c, ctx_of w = Some c /\ ConfigFacts.wf_cfg (x_l c) /\ ConfigFacts.wf_cfg (x_g c).
+Proof.
+  intros w Hr Hnb Hp.
+  destruct (reachable_cfgs_load w Hr) as (l & g & Hl & Hg & Hwl & Hwg).
+  destruct (ign_load (am_get (w_files w) (str ".goitignore"%string))) as [pats|] eqn:Ep;
+    [|contradiction Hp; reflexivity].
+  destruct (reachable_ctx_loads_with w l g pats Hr Hnb Hl Hg Ep) as (hc & _ & Hx).
+  exists (mkCtx l g hc pats). split; [exact Hx|]. split; assumption.
+Qed.
+
+Theorem history_ctx_loads' : forall h w,
+  Forall action_ok h ->
+  w = run h w_empty ->
+  ~ ConnectedFacts.Bad w ->
+  ign_load (am_get (w_files w) (str ".goitignore"%string)) <> None ->
+  exists c, ctx_of w = Some c /\ ConfigFacts.wf_cfg (x_l c) /\ ConfigFacts.wf_cfg (x_g c).
+Proof.
+  intros h w Hall Hw Hnb Hp. apply reachable_ctx_loads''; [|exact Hnb|exact Hp].
+  exists h. split; assumption.
+Qed.
+
+(* ... and it is an equivalence *)
+Theorem reachable_ctx_loads_iff' : forall w,
+  Reachable w -> ~ ConnectedFacts.Bad w ->
+  ((exists c, ctx_of w = Some c) <-> ign_load (ignore_file w) <> None).
+Proof.
+  intros w Hr Hnb. rewrite (reachable_ctx_loads_iff w Hr Hnb).
+  destruct (reachable_cfgs_load_neq w Hr) as [Hl Hg]. tauto.
+Qed.
+
+Corollary reachable_ctx_loads_live' : forall w,
+  Reachable w -> w_coll w = false -> SnapshotFacts.SmallStore (w_objs w) ->
+  ign_file_ok (am_get (w_files w) (str ".goitignore"%string)) = true ->
+  exists c, ctx_of w = Some c /\ ConfigFacts.wf_cfg (x_l c) /\ ConfigFacts.wf_cfg (x_g c).
+Proof.
+  intros w Hr Hc Hs Hp. apply reachable_ctx_loads''; [exact Hr| |].
+  - apply ConnectedFacts.not_bad_iff. split; [exact Hc | exact Hs].
+  - apply ign_load_iff. exact Hp.
+Qed.
+
+(* no ignore file at all: nothing is left to assume about files *)
+Corollary reachable_ctx_loads_no_ignore : forall w,
+  Reachable w -> w_coll w = false -> SnapshotFacts.SmallStore (w_objs w) ->
+  am_get (w_files w) (str ".goitignore"%string) = None ->
+  exists c, ctx_of w = Some c /\ x_pats c = [ign_builtin].
+Proof.
+  intros w Hr Hc Hs Hn.
+  destruct (reachable_ctx_loads_live' w Hr Hc Hs) as (c & Hx & _).
+  - rewrite Hn. reflexivity.
+  - exists c. split; [exact Hx|].
+    destruct (ctx_of_fields w c Hx) as (_ & _ & _ & Hp). unfold ignore_file in Hp.
+    rewrite Hn in Hp. cbn [ign_load] in Hp. injection Hp as Hp. symmetry. exact Hp.
+Qed.
+
+(* ------------------------------------------------------------------ *)
+(** ** the two configuration conditions, from the history
+       (the statements before the repair of `config`, kept: their hypothesis
+       [Forall loadable_action h] is no longer needed, see above) *)
 
 (* every `config` call of the history that is not refused sets a non-empty
    section name and no newline in the section name, the key and the value
@@ -612,8 +768,10 @@ Qed.
 
 Definition cx_env : env := mkEnv 1700000000 0.
 
-(* (a) a newline in a configuration value: ConfigCmdFacts.w_broken is
-   `init; config user.name "a\nb"` *)
+(* (a) before the repair of `config`, `init; config user.name "a\nb"` left a
+   reachable world whose local file the loader rejects.  The call is now
+   refused: the history ends in the world `init` leaves, whose context loads,
+   although the history is not in the domain of [loadable_action] *)
 Definition cx_hist_nl : list action :=
   [ACmd cx_env CInit; ACmd cx_env (CConfig false [str "user.name"%string; [x61; x0a; x62]])].
 
@@ -627,38 +785,56 @@ Proof.
   repeat constructor.
 Qed.
 
-Example cx_newline_breaks_ctx :
-  w_inited cx_w_nl = true /\ ~ ConnectedFacts.Bad cx_w_nl /\
-  cfg_of (w_lcfg cx_w_nl) = None /\ cfg_of (w_gcfg cx_w_nl) <> None /\
-  ign_load (am_get (w_files cx_w_nl) (str ".goitignore"%string)) <> None /\
-  ctx_of cx_w_nl = None /\
+Example cx_newline_refused :
+  cx_w_nl = ConfigCmdFacts.w_inited0 /\
+  step (ACmd cx_env (CConfig false [str "user.name"%string; [x61; x0a; x62]])) ConfigCmdFacts.w_inited0
+    = (ConfigCmdFacts.w_inited0, OErr, []) /\
+  w_lcfg cx_w_nl = CfgFile (Some []) /\ w_gcfg cx_w_nl = CfgAbsent /\
+  (exists c, ctx_of cx_w_nl = Some c) /\
   ~ Forall loadable_action cx_hist_nl.
 Proof.
   split; [vm_compute; reflexivity|].
-  split; [apply ConnectedFacts.bad_b_false; vm_compute; reflexivity|].
   split; [vm_compute; reflexivity|].
-  split; [vm_compute; discriminate|].
-  split; [vm_compute; discriminate|].
   split; [vm_compute; reflexivity|].
+  split; [vm_compute; reflexivity|].
+  split; [eexists; vm_compute; reflexivity|].
   intro Hall. inversion Hall as [|a1 t1 _ Ht]; subst. inversion Ht as [|a2 t2 Ha _]; subst.
   cbn in Ha. destruct Ha as (_ & _ & _ & Hv). apply Hv. right. left. reflexivity.
 Qed.
 
-(* it is the same world as ConfigCmdFacts.w_broken, which stays unusable *)
-Example cx_nl_is_w_broken : cx_w_nl = ConfigCmdFacts.w_broken.
-Proof. vm_compute. reflexivity. Qed.
+(* the world that call used to produce (ConfigCmdFacts.w_broken, now built by
+   hand) is not reachable any more, and neither is any world with a
+   configuration file the loader rejects *)
+Theorem broken_config_unreachable : forall w, ConfigCmdFacts.cfg_broken w -> ~ Reachable w.
+Proof.
+  intros w Hb Hr. destruct (reachable_cfgs_load_neq w Hr) as [Hl Hg].
+  destruct Hb as [Hb|Hb]; [exact (Hl Hb) | exact (Hg Hb)].
+Qed.
 
-(* (a') the two other ways: an empty section name (`config .k v` writes the
-   line "[]", which the loader rejects) and a newline in the key *)
-Example cx_empty_section_breaks_ctx :
-  let w := run [ACmd cx_env CInit; ACmd cx_env (CConfig false [str ".k"%string; str "v"%string])] w_empty in
-  w_lcfg w = CfgFile None /\ ctx_of w = None.
+Example cx_w_broken_unreachable :
+  ~ Reachable ConfigCmdFacts.w_broken /\ ctx_of ConfigCmdFacts.w_broken = None.
+Proof.
+  split; [|vm_compute; reflexivity].
+  apply broken_config_unreachable. left. vm_compute. reflexivity.
+Qed.
+
+(* (a') the two other ways, refused as well: an empty section name (`config .k v`
+   used to write the line "[]", which the loader rejects) and a newline in
+   the key *)
+Example cx_empty_section_refused :
+  run [ACmd cx_env CInit; ACmd cx_env (CConfig false [str ".k"%string; str "v"%string])] w_empty
+    = ConfigCmdFacts.w_inited0 /\
+  step (ACmd cx_env (CConfig false [str ".k"%string; str "v"%string])) ConfigCmdFacts.w_inited0
+    = (ConfigCmdFacts.w_inited0, OErr, []).
 Proof. split; vm_compute; reflexivity. Qed.
 
-Example cx_newline_in_key_breaks_ctx :
-  let w := run [ACmd cx_env CInit;
-                ACmd cx_env (CConfig true [(str "a.k"%string ++ [c_nl] ++ str "x"%string)%list; str "v"%string])] w_empty in
-  w_gcfg w = CfgFile None /\ ctx_of w = None.
+Example cx_newline_in_key_refused :
+  run [ACmd cx_env CInit;
+       ACmd cx_env (CConfig true [(str "a.k"%string ++ [c_nl] ++ str "x"%string)%list; str "v"%string])] w_empty
+    = ConfigCmdFacts.w_inited0 /\
+  step (ACmd cx_env (CConfig true [(str "a.k"%string ++ [c_nl] ++ str "x"%string)%list; str "v"%string]))
+       ConfigCmdFacts.w_inited0
+    = (ConfigCmdFacts.w_inited0, OErr, []).
 Proof. split; vm_compute; reflexivity. Qed.
 
 (* (a'') and what does NOT break it although outside the domain of C20: a tab
@@ -961,6 +1137,43 @@ Proof.
   exact (commit_total_gate e msg w c Hr Hx Hu Hd Hso Hc' Hsm').
 Qed.
 
+(* the same on EVERY history: `config` refuses what would make a file
+   unloadable, so no condition on the `config` calls is left *)
+Theorem history_commit_total' : forall h w e msg,
+  Forall action_ok h ->
+  w = run h w_empty ->
+  ign_load (am_get (w_files w) (str ".goitignore"%string)) <> None ->
+  w_coll (step_w (ACmd e (CCommit msg)) w) = false ->
+  SnapshotFacts.SmallStore (w_objs (step_w (ACmd e (CCommit msg)) w)) ->
+  exists c,
+    ctx_of w = Some c /\ ConfigFacts.wf_cfg (x_l c) /\ ConfigFacts.wf_cfg (x_g c) /\
+    (user_set (x_l c) (x_g c) = true ->
+     (match tip_of w with
+      | Some hid => exists s, SnapshotFacts.snapshot (w_objs w) hid = Some s /\ s <> idx_of w
+      | None => w_refs w = [] /\ idx_of w <> []
+      end) ->
+     sign_ok (user_name (x_l c) (x_g c)) (user_email (x_l c) (x_g c)) (e_time e) (e_off e) ->
+     exists root subs cm,
+       write_tree_top (idx_of w) = Some (root, subs) /\
+       cm = commit_of e c msg w root /\
+       step (ACmd e (CCommit msg)) w =
+         (after_commit e c msg w root subs, OOk [], do_commit_trace e c msg w root subs) /\
+       commit_post e c msg w root cm (after_commit e c msg w root subs) /\
+       c_msg cm = msg /\
+       c_parents cm = parent_list (tip_of w)).
+Proof.
+  intros h w e msg Hall Hw Hp Hc' Hsm'.
+  assert (Hr : Reachable w) by (exists h; split; assumption).
+  assert (Hnb : ~ ConnectedFacts.Bad w).
+  { destruct (SnapshotFacts.step_w_eq (ACmd e (CCommit msg)) w) as [tr Htr].
+    apply (not_bad_before tr w). rewrite <- Htr.
+    apply ConnectedFacts.not_bad_iff. split; [exact Hc' | exact Hsm']. }
+  destruct (history_ctx_loads' h w Hall Hw Hnb Hp) as (c & Hx & Hwl & Hwg).
+  exists c. split; [exact Hx|]. split; [exact Hwl|]. split; [exact Hwg|].
+  intros Hu Hd Hso.
+  exact (commit_total_gate e msg w c Hr Hx Hu Hd Hso Hc' Hsm').
+Qed.
+
 (* ================================================================== *)
 (** * 3. Non-vacuity *)
 
@@ -1087,7 +1300,21 @@ Print Assumptions cx_odd_values_load.
 Print Assumptions history_ctx_loads.
 Print Assumptions history_ctx_loads_live.
 Print Assumptions history_ctx_loads_no_ignore.
-Print Assumptions cx_newline_breaks_ctx.
+Print Assumptions every_action_loadable_or_refused.
+Print Assumptions run_cmd_emits_cfgs.
+Print Assumptions reachable_cfgs_load.
+Print Assumptions cfgs_load_fault.
+Print Assumptions reachable_ctx_loads''.
+Print Assumptions history_ctx_loads'.
+Print Assumptions reachable_ctx_loads_iff'.
+Print Assumptions reachable_ctx_loads_live'.
+Print Assumptions reachable_ctx_loads_no_ignore.
+Print Assumptions history_commit_total'.
+Print Assumptions cx_newline_refused.
+Print Assumptions broken_config_unreachable.
+Print Assumptions cx_w_broken_unreachable.
+Print Assumptions cx_empty_section_refused.
+Print Assumptions cx_newline_in_key_refused.
 Print Assumptions cx_ignore_breaks_ctx.
 Print Assumptions cx_ignore_repaired.
 Print Assumptions after_commit_sizes.
